@@ -380,12 +380,15 @@ def run(ctx):
                     amounts = [-40.0, -1.5, 0.0, 1e-3, 1.0, 37.5, 273.15, 1e4]
                     try:
                         as_list = db.Convert(qt, u, v, list(amounts))
-                        for label, mk in (("generator", lambda z: (t for t in z)), ("iter", iter), ("map", lambda z: map(float, z)), ("reversed", lambda z: reversed(z[::-1])), ("dict keys", lambda z: dict.fromkeys(z).keys())):
+                        for label, mk in (("generator", lambda z: (t for t in z)), ("iter", iter), ("map", lambda z: map(float, z)), ("reversed", lambda z: reversed(z[::-1])), ("dict keys", lambda z: dict.fromkeys(z).keys()),
+                                          # items that exist only while they are being handed over (computed on the fly, unboxed from a buffer)
+                                          ("computed generator", lambda z: (t * 1.0 + 0.0 for t in z)), ("array.array", lambda z: __import__("array").array("d", z)), ("ndarray.flat", lambda z: np.array(z).flat),
+                                          ("memoryview", lambda z: memoryview(__import__("array").array("d", z)))):
                             ctx.ev()
                             got = db.Convert(qt, u, v, mk(amounts))
                             if [float(t) for t in got] != as_list:
                                 ctx.violation("%s:%s:%s->%s:one-shot-iterable:%s" % (kind, qt, u, v, label), {"got": repr(got)[:200], "as_a_list": repr(as_list)[:200], "db": kind}, replay={"kind": kind, "qt": qt, "u": u, "v": v, "x": 37.5})
-                        ctx.count("one-shot iterables converted", 5)
+                        ctx.count("one-shot iterables converted", 9)
                     except Exception as e:
                         ctx.violation("%s:%s:%s->%s:one-shot-iterable-raised" % (kind, qt, u, v), {"error": repr(e)[:200], "db": kind})
                     if n_big < 12:
@@ -454,6 +457,27 @@ def run(ctx):
                         if not ok:
                             ctx.violation("%s:%s:%s->%s:an-earlier-answer-changed-when-another-array-was-converted" % (kind, qt, u, v), {"first_answer_now": repr(r1)[:120], "was": want1, "db": kind}, replay={"kind": kind, "qt": qt, "u": u, "v": v, "x": 12.5})
                 ctx.count("earlier answers looked at after later conversions", n_ans)
+                # arrays of more than one dimension in every memory layout (C order, Fortran order, a transposed view, a strided slice):
+                # the element at [i, j] of the answer is the conversion of the element at [i, j]
+                n_lay = 0
+                for qt, us in sorted(by_qt.items()):
+                    if qt == "Unknown" or len(us) < 2 or n_lay >= 60:
+                        continue
+                    offs = [w for w in us if aff[w].off != 0.0]
+                    u, v = (offs[0], next(w for w in us if w != offs[0])) if offs else (us[0], us[-1])
+                    base2 = np.arange(12, dtype=float).reshape(3, 4) * 1.5 - 4.0
+                    for label, arr in (("C order", base2.copy()), ("Fortran order", np.asfortranarray(base2)), ("transposed view", base2.T), ("strided slice", np.arange(48, dtype=float).reshape(6, 8)[::2, ::2]),
+                                       ("3-d Fortran", np.asfortranarray(np.arange(24, dtype=float).reshape(2, 3, 4)))):  # fmt: skip
+                        ctx.ev()
+                        n_lay += 1
+                        try:
+                            got = np.asarray(db.Convert(qt, u, v, arr))
+                            ok = got.shape == arr.shape and all(float(got[idx_]) == db.Convert(qt, u, v, float(arr[idx_])) for idx_ in np.ndindex(arr.shape))
+                        except Exception as e:
+                            ok = repr(e)[:160]
+                        if ok is not True:
+                            ctx.violation("%s:%s:%s->%s:array-of-several-dimensions:%s" % (kind, qt, u, v, label), {"layout": label, "shape": list(arr.shape), "problem": ok if ok is not False else "elements land in other positions (or differ from the scalar route)", "db": kind}, replay={"kind": kind, "qt": qt, "u": u, "v": v, "x": 2.0})
+                ctx.count("arrays of several dimensions converted", n_lay)
                 # long lists and tuples (1 000 items and more) are the same amounts, item by item, as the scalar route gives
                 n_long = 0
                 for qt, us in sorted(by_qt.items()):
